@@ -291,6 +291,10 @@ def inv4(rep, mod, table):
     pairs = (('_uncached_lookup', 'lookup', '_cache'),
              ('_uncached_lookupAll', 'lookupAll', '_mcache'),
              ('_uncached_subscriptions', 'subscriptions', '_scache'))
+    from . import sem as _sem
+    for fn_ in ('lookup', 'lookup1', 'adapter_hook', 'lookupAll', 'subscriptions'):
+        _sem.fetch_order_spec(rep, 'INV-4', find_def(mod, 'LookupBase.' + fn_),
+                              'LookupBase.' + fn_)
     subscribe_on_all_exits(rep, mod, 'INV-4')
     # _subscribe
     f = find_def(mod, 'AdapterLookupBase._subscribe')
